@@ -381,7 +381,7 @@ def mk_atoms(facts):
     return atoms
 
 
-def explore(stmts, atoms, names=(), upto=None, max_paths=20000, exceptions=False, env0=None):
+def explore(stmts, atoms, names=(), upto=None, max_paths=20000, exceptions=False, env0=None, may_raise=None, is_subclass=None):
     """Feasible control-flow paths of `stmts` under the 3-valued atom valuation `atoms(expr)` (branches whose test evaluates to a constant are
     pruned; constants assigned to plain locals on the path are tracked, so `flag = True ... if flag:` is followed).  Returns one dict per
     path: kind ('return'/'raise'/'fall'/'continue'/'break' or 'upto'), stmt (the terminating Return/Raise statement or None),
@@ -389,7 +389,12 @@ def explore(stmts, atoms, names=(), upto=None, max_paths=20000, exceptions=False
     names is None), consts (name -> constant value known at the end of the path; `env0` gives initial constants, e.g. one concrete value per
     symbol of a small finite domain), path (for messages)."""
     from .cfg import CFG, eval3, UNK
-    cfg = CFG(stmts, exceptions=exceptions)
+    kw = {}
+    if may_raise is not None:
+        kw['may_raise'] = may_raise
+    if is_subclass is not None:
+        kw['is_subclass'] = is_subclass
+    cfg = CFG(stmts, exceptions=exceptions or may_raise is not None, **kw)
     stop_ids = set(cfg_nodes_containing(cfg, upto)) if upto is not None else set()
     res = []
 
